@@ -1,5 +1,9 @@
 import FpgoVerif.Proofs.C15Mailbox
+import FpgoVerif.Proofs.C15Bcq
+import FpgoVerif.Proofs.C15Cor
+import FpgoVerif.Proofs.C15Pool
 import FpgoVerif.Gen.Skeletons
+import FpgoVerif.Gen.C15Bodies
 /-! Property theorems for C15 — "Shutdown is safe at any moment".  One transition system per component
     (Model/C15*.lean); every theorem quantifies over all reachable states = all interleavings of any number
     of goroutines with the one closing goroutine. -/
@@ -50,5 +54,165 @@ example : ∃ s, Mb.Reach 1 true s ∧ 0 < s.cnt .p1 ∧ 0 < s.cnt .c1 := by
   cases hr : Mb.runActs (Mb.init 1 true) acts with
   | none => simp [hr] at h
   | some s => exact ⟨s, Mb.runActs_reach acts Mb.Reach.init hr, by simpa [hr] using h⟩
+
+/-! ## BufferedChannelQueue -/
+
+/-- no goroutine panics (users, closer, loader): nothing is sent on / closes a closed channel -/
+theorem C15_bcq_safe {c b s} (h : Bq.Reach c b true true s) : s.panic = false :=
+  (Bq.inv_reach h).nopanic
+
+/-- the code before c8ecf0a, notifyWorkers without lock and closed-check: Take checks, Close closes, the wake-up
+    is sent on the closed loadWorkerCh -/
+theorem C15_bcq_unfixed_notify_panics : ∃ s, Bq.Reach 1 1 false true s ∧ s.panic = true := by
+  let acts : List (Option Bool × Bq.PC) :=
+    [(none, .t0 .take), (some false, .t0 .take), (none, .c0), (some false, .c0), (some false, .c1), (some false, .c2),
+     (some false, .n1 .take), (some false, .n2 .take)]
+  have h : ((Bq.runActs (Bq.init 1 1 false true) acts).map (·.panic)) = some true := by decide
+  cases hr : Bq.runActs (Bq.init 1 1 false true) acts with
+  | none => simp [hr] at h
+  | some s => exact ⟨s, Bq.runActs_reach acts Bq.Reach.init hr, by simpa [hr] using h⟩
+
+/-- the code before c8ecf0a, loader without the re-check under the lock: it try-sends on the closed channel -/
+theorem C15_bcq_unfixed_loader_panics : ∃ s, Bq.Reach 1 2 true false s ∧ s.panic = true := by
+  let acts : List (Option Bool × Bq.PC) :=
+    [(none, .o0 1), (some false, .o0 1), (some false, .o1 1), (none, .o0 2), (some false, .o0 2), (some false, .o1 2),
+     (some false, .l0), (some false, .l1), (none, .c0), (some false, .c0), (some false, .c1), (some false, .c2),
+     (some false, .l2), (some false, .l3), (some false, .l4 2)]
+  have h : ((Bq.runActs (Bq.init 1 2 true false) acts).map (·.panic)) = some true := by decide
+  cases hr : Bq.runActs (Bq.init 1 2 true false) acts with
+  | none => simp [hr] at h
+  | some s => exact ⟨s, Bq.runActs_reach acts Bq.Reach.init hr, by simpa [hr] using h⟩
+
+/-- after Close has returned: flag set, both channels closed, no closed-check has passed since -/
+theorem C15_bcq_after {c b s} (h : Bq.Reach c b true true s) :
+    s.late = 0 ∧ (s.closeDone = true → s.flag = true ∧ s.chanClosed = true ∧ s.loadClosed = true) := by
+  have hi := Bq.inv_reach h
+  exact ⟨hi.late0, fun hd => ⟨hi.doneFlag hd, hi.doneAll hd, (hi.chanFlag (hi.doneAll hd)).1⟩⟩
+
+/-- calls whose first atom follows Close's last atom report it: Take/TakeWithTimeout/Poll → ErrQueueIsClosed,
+    Offer/Put (under the lock) → ErrQueueIsClosed, Count → 0, IsClosed → true -/
+theorem C15_bcq_after_reports {c b s ch s' nx} (h : Bq.Reach c b true true s) (hd : s.closeDone = true) :
+    (∀ k, Bq.gstep s (.t0 k) ch = some (s', nx) → nx = .fin .closed) ∧
+    (∀ v, Bq.gstep s (.o1 v) ch = some (s', nx) → nx = .fin .closed) ∧
+    (Bq.gstep s .k0 ch = some (s', nx) → nx = .fin (.n 0)) ∧
+    (Bq.gstep s .ic ch = some (s', nx) → nx = .fin (.b true)) := by
+  have hf := (Bq.inv_reach h).doneFlag hd
+  refine ⟨?_, ?_, ?_, ?_⟩
+  · intro k hs
+    obtain ⟨_, s1, hs1, _⟩ := Bq.gstep_some hs
+    simp [Bq.step, hf] at hs1; exact hs1.2.symm
+  · intro v hs
+    obtain ⟨_, s1, hs1, _⟩ := Bq.gstep_some hs
+    simp [Bq.step, hf] at hs1; exact hs1.2.symm
+  · intro hs
+    obtain ⟨_, s1, hs1, _⟩ := Bq.gstep_some hs
+    simp [Bq.step, hf] at hs1; exact hs1.2.symm
+  · intro hs
+    obtain ⟨_, s1, hs1, _⟩ := Bq.gstep_some hs
+    simp [Bq.step, hf] at hs1; exact hs1.2.symm
+
+/-- no deadlock: once Close has begun, as long as any goroutine is inside the queue (a user mid-call, the closer,
+    the loader) some goroutine can step — blocked consumers are released by the closed channel, lock waiters by
+    the lock holder, which never blocks -/
+theorem C15_bcq_nodeadlock {c b s} (h : Bq.Reach c b true true s) (hcs : s.closeStarted = true)
+    (hb : ∃ k, 0 < s.cnt k) : ∃ pc ch s' nx, Bq.gstep s pc ch = some (s', nx) :=
+  Bq.progress (Bq.inv_reach h) hcs hb
+
+/-! ## Coroutines -/
+
+/-- no panic: nobody sends on the target's closed opCh (both before and after cb38847) -/
+theorem C15_cor_safe {cap f s} (h : Co.Reach cap f s) : s.panic = false :=
+  (Co.inv_reach h).nopanic
+
+/-- after the target's close() has completed: IsDone, opCh closed, no done-check has passed since -/
+theorem C15_cor_after {cap f s} (h : Co.Reach cap f s) :
+    s.late = 0 ∧ (s.closeDone = true → s.gflag = true ∧ s.opClosed = true) := by
+  have hi := Co.inv_reach h
+  exact ⟨hi.late0, fun hd => ⟨(hi.done hd).1, (hi.done hd).2.1⟩⟩
+
+/-- a YieldFrom whose first atom follows the completion of close() returns the zero value without queueing -/
+theorem C15_cor_after_zero {cap f s id x ch s' nx} (h : Co.Reach cap f s) (hd : s.closeDone = true)
+    (hs : Co.gstep s (.r0 id x) ch = some (s', nx)) : nx = .fin (.okv 0) ∧ s'.opCh = s.opCh := by
+  have hi := Co.inv_reach h
+  obtain ⟨hg, hop, _⟩ := hi.done hd
+  obtain ⟨_, s1, hs1, rfl⟩ := Co.gstep_some hs
+  have hr1 := (hi.opc hop).2.1
+  simp [Co.step, hg, hr1] at hs1
+  obtain ⟨rfl, rfl⟩ := hs1
+  simp
+
+/-- no deadlock (current code, cb38847): once the target's effect has returned, every goroutine still inside
+    YieldFrom or close() can step until all have returned -/
+theorem C15_cor_nodeadlock {cap s} (h : Co.Reach cap true s) (hr : s.retStarted = true)
+    (hb : 0 < s.cnt .r0 ∨ 0 < s.cnt .r1 ∨ 0 < s.cnt .w ∨ 0 < s.cnt .isd ∨
+          0 < s.cnt .gc0 + s.cnt .gc1 + s.cnt .gc2 + s.cnt .gc3) :
+    ∃ pc ch s' nx, Co.gstep s pc ch = some (s', nx) :=
+  Co.progress (Co.inv_reach h) (Co.fixed_const h) hr hb
+
+/-- the code before cb38847 deadlocks: with opCh full a sender holds closedM inside the blocking send, the
+    finishing target waits for closedM, and neither can step (capacity 1: two callers) -/
+theorem C15_cor_unfixed_deadlock :
+    ∃ s, Co.Reach 1 false s ∧ s.retStarted = true ∧ 0 < s.cnt .r1 ∧ 0 < s.cnt .gc2 ∧
+      (Co.gstep s (.r1 2 6) false).isNone = true ∧ (Co.gstep s .gc2 false).isNone = true := by
+  let acts : List (Option Bool × Co.PC) :=
+    [(none, .r0 1 5), (some false, .r0 1 5), (some false, .r1 1 5), (none, .r0 2 6), (some false, .r0 2 6),
+     (none, .gc0), (some false, .gc0), (some false, .gc1)]
+  have h : ((Co.runActs (Co.init 1 false) acts).map (fun s => s.retStarted && decide (0 < s.cnt .r1) &&
+      decide (0 < s.cnt .gc2) && (Co.gstep s (.r1 2 6) false).isNone && (Co.gstep s .gc2 false).isNone)) = some true := by decide
+  cases hr : Co.runActs (Co.init 1 false) acts with
+  | none => simp [hr] at h
+  | some s =>
+    refine ⟨s, Co.runActs_reach acts Co.Reach.init hr, ?_⟩
+    simp [hr] at h
+    obtain ⟨⟨⟨⟨h1, h2⟩, h3⟩, h4⟩, h5⟩ := h
+    exact ⟨h1, h2, h3, by simpa using h4, by simpa using h5⟩
+
+/-- the code before cb38847 strands callers: the target is done, a request it accepted sits unanswered in opCh
+    and its caller waits on resultCh with no answer coming -/
+theorem C15_cor_unfixed_stranded :
+    ∃ s, Co.Reach 5 false s ∧ s.closeDone = true ∧ 0 < s.cnt .w ∧ s.answers = [] ∧ s.opCh ≠ [] := by
+  let acts : List (Option Bool × Co.PC) :=
+    [(none, .r0 1 5), (some false, .r0 1 5), (some false, .r1 1 5), (none, .gc0), (some false, .gc0), (some false, .gc1),
+     (some false, .gc2)]
+  have h : ((Co.runActs (Co.init 5 false) acts).map (fun s => s.closeDone && decide (0 < s.cnt .w) &&
+      s.answers.isEmpty && !s.opCh.isEmpty)) = some true := by decide
+  cases hr : Co.runActs (Co.init 5 false) acts with
+  | none => simp [hr] at h
+  | some s =>
+    refine ⟨s, Co.runActs_reach acts Co.Reach.init hr, ?_⟩
+    simp [hr] at h
+    obtain ⟨⟨⟨h1, h2⟩, h3⟩, h4⟩ := h
+    exact ⟨h1, h2, by simpa [List.isEmpty_iff] using h3, by simpa [List.isEmpty_iff] using h4⟩
+
+/-! ## WorkerPool -/
+
+/-- no goroutine panics on the pool's close path and the panic handler never sees a non-job panic -/
+theorem C15_pool_safe {cap qc s} (h : Pl.Reach cap qc true s) : s.panic = false ∧ s.np = 0 :=
+  ⟨(Pl.inv_reach h).nopanic, (Pl.inv_reach h).np0⟩
+
+/-- the code before c8ecf0a: a worker's GetChannel() after the job queue was closed panics outside any job and
+    the worker hands that panic to the pool's panic handler -/
+theorem C15_pool_unfixed_handler : ∃ s, Pl.Reach 2 true false s ∧ s.np = 1 := by
+  let acts : List (Option Bool × Pl.PC) :=
+    [(some false, .w0), (none, .pc0), (some false, .pc0), (some false, .pc1), (some false, .qc1), (some false, .qc2),
+     (some false, .w1), (some false, .w2)]
+  have h : ((Pl.runActs (Pl.init 2 true false) acts).map (·.np)) = some 1 := by decide
+  cases hr : Pl.runActs (Pl.init 2 true false) acts with
+  | none => simp [hr] at h
+  | some s => exact ⟨s, Pl.runActs_reach acts Pl.Reach.init hr, by simpa [hr] using h⟩
+
+/-- after Close has returned the pool reports closed and no closed-check has passed since: Schedule returns
+    ErrWorkerPoolIsClosed and enqueues nothing, so no job submitted afterwards can run -/
+theorem C15_pool_after {cap qc s} (h : Pl.Reach cap qc true s) :
+    s.late = 0 ∧ (s.closeDone = true → s.pflag = true) :=
+  ⟨(Pl.inv_reach h).late0, (Pl.inv_reach h).doneFlag⟩
+
+theorem C15_pool_after_reports {cap qc s j ch s' nx} (h : Pl.Reach cap qc true s) (hd : s.closeDone = true)
+    (hs : Pl.gstep s (.s0 j) ch = some (s', nx)) : nx = .fin .pclosed ∧ s'.jobs = s.jobs := by
+  have hf := (Pl.inv_reach h).doneFlag hd
+  obtain ⟨_, s1, hs1, rfl⟩ := Pl.gstep_some hs
+  simp [Pl.step, hf] at hs1
+  obtain ⟨rfl, rfl⟩ := hs1
+  simp
 
 end FpgoVerif.C15
